@@ -7,7 +7,7 @@ src=/tmp/wt/$id/out/$n
 wt=/tmp/wt/confirm
 export GOFLAGS=-mod=mod GOPROXY=off GOSUMDB=off
 cd $wt || exit 9
-git checkout -q -- . ; git clean -fdq
+git checkout -q -- . ; git clean -fdq -e out
 runpat=$(grep -h "^func Test" $src/*_test.go | sed 's/func \(Test[A-Za-z0-9_]*\).*/\1/' | tr '\n' '|' | sed 's/|$//')
 echo "### $id/$n demo tests: $runpat"
 git apply $src/patch.diff || { echo "RESULT $id/$n patch-does-not-apply"; exit 1; }
@@ -23,5 +23,5 @@ done
 (cd $demodir && timeout 900 go test -vet=off -count=1 -run "^($runpat)\$" . >/tmp/wt/logs/confirm_${id}_${n}_with.log 2>&1); with=$?
 git checkout -q -- .
 (cd $demodir && timeout 900 go test -vet=off -count=1 -run "^($runpat)\$" . >/tmp/wt/logs/confirm_${id}_${n}_without.log 2>&1); without=$?
-git clean -fdq; git checkout -q -- .
+git clean -fdq -e out; git checkout -q -- .
 echo "RESULT $id/$n existing_tests_with_change_rc=$existing demo_with_change_rc=$with demo_without_change_rc=$without"
